@@ -5,7 +5,7 @@ from pv.check import run_check
 from pv.entail import entails
 from pv.expr import Ctx, guard_facts, key_contains
 from pv.facts import AnalysisBroken, strip_targs
-from pv.loops import enclosing_loops, loop_shape, stmts_of
+from pv.loops import enclosing_loops, loop_shape, stmts_of, no_early_exit
 from pv.spmd import Spmd, comm_roots, msg_tainted, rank_tainted
 from checks.c06 import match_arms
 from checks.c20 import fact_str
@@ -432,7 +432,7 @@ def check_unzip(r4, f, sp, ctx, items, cfgname):
             if lk[0] == "op" and lk[1] == "[]" and lk[3][0] == "op" and lk[3][1] == "[]" and lk[3][2][:2] == oj[:2] and rk[0] == "op" and rk[1] == "[]" and rk[2][:2] == ow[:2] and lk[3][3] == rk[3]:
                 L = enclosing_loops(f, j)
                 shp = loop_shape(f, ctx, L[0]) if L else None
-                if shp is not None and shp["kind"] == "index" and shp["start"] == ("lit", 0) and not shp["exits"] and shp["bound"] in (("mcall", "std::vector::size", oj), ("mcall", "std::vector::size", ow)):
+                if shp is not None and shp["kind"] == "index" and shp["start"] == ("lit", 0) and no_early_exit(shp) and shp["bound"] in (("mcall", "std::vector::size", oj), ("mcall", "std::vector::size", ow)):
                     good = True
     if good:
         r4.ok(site2, f.loc(), "job_map[jobs[i]] = workers[i] for every received i", cfgname)
